@@ -695,9 +695,11 @@ def _iter_segments(
                         if stashed_source_idx is not None:
                             slice_start = stashed_source_idx
                         else:
-                            slice_start = (
-                                tfs.source_slice.start + consumed_element_length
-                            )
+                            # NOTE: Anything already consumed from this element
+                            # (split whitespace) was consumed from *earlier*
+                            # slices. A templated slice can't be subdivided, so
+                            # what's left maps to the whole of it.
+                            slice_start = tfs.source_slice.start
                         yield element.to_segment(
                             pos_marker=PositionMarker(
                                 slice(
